@@ -70,6 +70,12 @@ CHECKS = {
             "generated programs under random layouts every reported identifier / literal / declaration range must be exactly a "
             "recorded token range, hull ranges must contain their children and round-trip through the printed form.",
             "Trusted: vf/model.py printer bookkeeping (asserted against the text), the 1-based end-exclusive convention.", "4/C20"),
+    "C17": ("exploration",
+            "Hypothesis-generated programs, store/load round trip (pickle as nslc.py does, real nslc.py command line, same and "
+            "fresh process) with a differential oracle against the in-memory module",
+            "Accepted programs at both optimisation settings are stored and reloaded in the same process, in a fresh child process "
+            "and through the nslc.py command line; listing, global table and VM behaviour on generated inputs must be identical.",
+            "Trusted: the in-memory module is the reference; VM failures are compared by exception class.", "4/C17"),
 }
 
 PENDING = {}
